@@ -39,7 +39,12 @@ WRITERS = {
                         'height_pressure'),
     'wind': ('PseudoNetCDF.camxfiles.wind.Write', 'ncf2wind',
              'PseudoNetCDF.camxfiles.wind.Memmap', 'wind'),
+    'cloud_rain': ('PseudoNetCDF.camxfiles.cloud_rain.Write',
+                   'ncf2cloud_rain',
+                   'PseudoNetCDF.camxfiles.cloud_rain.Memmap', 'cloud_rain'),
 }
+CR_KEYS = ['CLOUD', 'RAIN', 'SNOW', 'GRAUPEL', 'COD']
+CR_DESC = 'cloud/rain file 4.3+'          # 20 characters
 
 
 class _NC(object):
@@ -75,6 +80,8 @@ class MetWrite(Obligation):
     def _seq(self):
         if self.fmt == 'wind':
             return [x for k in range(self.nz) for x in (('U', k), ('V', k))]
+        if self.fmt == 'cloud_rain':
+            return [(v, k) for k in range(self.nz) for v in CR_KEYS]
         return layouts.MetLayout.KINDS[self.fmt](self.nz)
 
     def _expected(self, flags, data):
@@ -88,9 +95,22 @@ class MetWrite(Obligation):
             return list(struct.unpack('>%di' % cells,
                                       np.asarray(cell).astype('>f4')
                                       .tobytes()))
+        if self.fmt == 'cloud_rain':
+            out.append(('record[file-header]',
+                        [len(CR_DESC) + 12] + list(struct.unpack(
+                            '>5i', CR_DESC.encode())) +
+                        [self.cols, self.rows, self.nz, len(CR_DESC) + 12]))
         for t, (d, hms) in enumerate(flags):
             yy = d // 1000 % 100 * 1000 + d % 1000
             hhmm = ('f', hms, 100)
+            if self.fmt == 'cloud_rain':
+                out.append(('record[t=%d,header]' % t,
+                            [8, hhmm, ('i', yy, 1), 8]))
+                for var, k in self._seq():
+                    out.append(('record[t=%d,%s,%s]' % (t, var, k),
+                                [4 * cells] + bits(data[var][t, k]) +
+                                [4 * cells]))
+                continue
             if self.fmt == 'wind':
                 out.append(('record[t=%d,header]' % t,
                             [12, hhmm, ('i', yy, 1), 0, 12]))
@@ -155,6 +175,10 @@ class MetWrite(Obligation):
         if self.fmt == 'wind':
             nc.LSTAGGER = np.array(0, dtype='>i4')
             nc.dimensions = {'LAY': range(self.nz)}
+        if self.fmt == 'cloud_rain':
+            nc.FILEDESC = CR_DESC
+            nc.dimensions = {'LAY': range(self.nz), 'ROW': range(self.rows),
+                             'COL': range(self.cols)}
         sink = shim.ByteSink()
         W.open = lambda path, mode='wb': sink
 
@@ -268,6 +292,8 @@ class MetWrite(Obligation):
                     var[:] = v
                 if self.fmt == 'wind':
                     f.LSTAGGER = np.array(0, dtype='>i4')
+                if self.fmt == 'cloud_rain':
+                    f.FILEDESC = CR_DESC
                 try:
                     out = getattr(importlib.import_module(wmod), wfn)(f, path)
                     out.close()
@@ -339,7 +365,8 @@ def obligations(tier):
     obs = []
     years = (1999, 2004) if tier == 'quick' else (1970, 1999, 2000, 2004,
                                                   2069)
-    for fmt in ('one3d', 'temperature', 'height_pressure', 'wind'):
+    for fmt in ('one3d', 'temperature', 'height_pressure', 'wind',
+                'cloud_rain'):
         for y in years:
             obs.append(MetWrite(fmt, y, 2, 2, 1, 2))
         if tier == 'thorough':
